@@ -332,6 +332,20 @@ theorem DynArray.fillRead_eq (n : Nat) (g : Nat → α) : DynArray.fillRead n g 
       simp [DynArray.read, dynFilled, hi, bind, Except.bind, pure, Except.pure]
   exact h (List.range n) (fun i hi => by simpa using hi)
 
+/-! ### erase while iterating with an arbitrary state-passing action -/
+
+theorem iterate_general (action : α → σ → Bool × σ) (done rest : List α) (s : σ) :
+    iterate action done rest s =
+      (done ++ Spec.kept rest (Spec.decisions action rest s).1, (Spec.decisions action rest s).2) := by
+  induction rest generalizing done s with
+  | nil => simp [iterate, Spec.decisions, Spec.kept]
+  | cons x rest ih =>
+    rw [iterate]
+    rcases h : action x s with ⟨b, s'⟩
+    cases b
+    · simp [ih, Spec.decisions, Spec.kept, h, List.append_assoc]
+    · simp [ih, Spec.decisions, Spec.kept, h]
+
 /-! ### output, singular -/
 
 theorem output_eq (render : α → List Char) (xs : List α) :
